@@ -2,6 +2,7 @@ import PlumpyModel.Futures.Proof
 import PlumpyModel.Futures.ProofMirror
 import PlumpyModel.Futures.ProofAction
 import PlumpyModel.Futures.ProofTask
+import PlumpyModel.Futures.ProofRpc
 /-!
 # C20 — future adapters deliver result, error or cancellation exactly once
 -/
@@ -194,5 +195,49 @@ theorem C20_create_task_captures (N : Nat) (d : FId → St) (hd : ∀ f, N ≤ f
   · refine ⟨hb.errs, hb.fuel, .inl hl.fpend, fun h => by simp [hr] at h, fun _ => List.count_eq_zero.mpr hl.unset,
       fun h => absurd hl.fpend h⟩
   · exact ⟨hb.errs, hb.fuel, .inr hst, fun _ => hst, fun h => List.count_eq_zero.mpr (hu1 h), hu2⟩
+
+/-- **C20, `Process._schedule_rpc`** -/
+theorem C20_schedule_rpc_unwraps (n : Nat) (o : Outcome) (pre post : List Ev) (fuel : Nat) (hfuel : n + 2 ≤ fuel) :
+    let d := chainD n o
+    let s1 := envRun d fuel (newFutures .aio (n + 1) {}) pre
+    let kf := (scheduleRpc s1 (.ret (.ref 0))).2
+    let s3 := envRun d fuel (scheduleRpc s1 (.ret (.ref 0))).1 post
+    s3.errs = [] ∧ s3.fuelOut = false ∧
+    (s3.st kf = .pending ∨ s3.st kf = o.toSt) ∧
+    (s3.st n = .pending → s3.st kf = .pending) ∧
+    ((∀ i, i ≤ n → s3.st i ≠ .pending) → s3.ready = [] → s3.st kf = o.toSt) ∧
+    (s3.st kf = .pending → s3.sets.count kf = 0) ∧ (s3.st kf ≠ .pending → s3.sets.count kf = 1) ∧
+    (∀ i, i ≤ n → Ev.complete i ∈ pre ++ post → s3.st i ≠ .pending) := by
+  intro d s1 kf s3
+  have hpre : UPre .aio n o s1 := upre_envRun fuel pre _ (upre_init .aio n o)
+  obtain ⟨hk, hinv⟩ := rpc_wrap hpre (upre_ntasks fuel pre)
+  obtain ⟨hb, hpos⟩ : RInv n o s3 := rpc_envRun fuel hfuel post _ hinv
+  have hk' : kf = n + 1 := hk
+  have hdone : ∀ i, i ≤ n → Ev.complete i ∈ pre ++ post → s3.st i ≠ .pending := by
+    intro i hi hmem
+    have hd : d i ≠ .pending := chainD_ne_pending hi
+    rcases List.mem_append.mp hmem with h | h
+    · have h1 : s1.st i ≠ .pending :=
+        envRun_complete_done d fuel i hd pre _ (by rw [(upre_init .aio n o).next]; omega) h
+      have hm : Mono s1 s3 := (mono_scheduleRpc s1 _).trans (mono_envRun d fuel post _)
+      exact done_of_mono hm (by rw [hpre.next]; omega) h1
+    · refine envRun_complete_done d fuel i hd post _ ?_ h
+      rw [hinv.1.next]; omega
+  rw [hk']
+  have hlive : RLive n s3 → _ := fun hl =>
+    (⟨hb.errs, hb.fuel, .inl hl.kpend, fun _ => hl.kpend, fun _ => List.count_eq_zero.mpr hl.unset,
+      fun h => absurd hl.kpend h⟩ : s3.errs = [] ∧ s3.fuelOut = false ∧ (s3.st (n + 1) = .pending ∨ s3.st (n + 1) = o.toSt) ∧
+      (s3.st n = .pending → s3.st (n + 1) = .pending) ∧ (s3.st (n + 1) = .pending → s3.sets.count (n + 1) = 0) ∧
+      (s3.st (n + 1) ≠ .pending → s3.sets.count (n + 1) = 1))
+  rcases hpos with ⟨hl, _, hr, _⟩ | ⟨j, hj, hl, _, _, hpj, _, _, _⟩ | ⟨j, hj, hl, _, _, hr, _⟩ | ⟨_, _, _, hall, hst, hcnt⟩
+  · obtain ⟨a, b, c, e, f, g⟩ := hlive hl
+    exact ⟨a, b, c, e, fun _ h => by simp [hr] at h, f, g, hdone⟩
+  · obtain ⟨a, b, c, e, f, g⟩ := hlive hl
+    exact ⟨a, b, c, e, fun hall _ => absurd hpj (hall j hj), f, g, hdone⟩
+  · obtain ⟨a, b, c, e, f, g⟩ := hlive hl
+    exact ⟨a, b, c, e, fun _ h => by simp [hr] at h, f, g, hdone⟩
+  · have hnp : s3.st (n + 1) ≠ .pending := by rw [hst]; exact Outcome.toSt_ne_pending o
+    refine ⟨hb.errs, hb.fuel, .inr hst, fun hp => ?_, fun _ _ => hst, fun h => absurd h hnp, fun _ => hcnt, hdone⟩
+    exact absurd hp (by rw [hall n (Nat.le_refl _)]; exact chainD_ne_pending (Nat.le_refl _))
 
 end Futures
